@@ -19,6 +19,11 @@ sys.path.insert(0, HERE)
 from rustlex import (ExtractError, SourceFile, lex, strip_comments, OPEN, CLOSE)  # noqa
 
 REPO = os.environ.get("VERIF_REPO", "/repo")
+try:
+    with open(os.path.join(HERE, "pinned_items.json")) as _f:
+        PINNED = json.load(_f)
+except Exception:
+    PINNED = {}
 S_IN, S_OUT = "\x01", "\x02"   # sentinels around spliced (non-repo) text
 
 
@@ -117,6 +122,12 @@ class Rewriter:
                 continue
             j = find_close(text, m.end() - 1, mask)
             seg = text[m.start():j + 1]
+            if re.match(r"#\s*\[\s*cfg\s*\(\s*dnssector_verif\s*\)\s*\]", seg):
+                # instrumentation of the verification harness itself (MANIFEST.hooks): the guarded statement is not part of a normal build
+                k = text.index(";", j)
+                self.note("hook", text, m.start(), "cfg(dnssector_verif) statement dropped: " + " ".join(text[j + 1:k + 1].split()))
+                out = out[:m.start()] + blank(text[m.start():k + 1]) + out[k + 1:]
+                continue
             self.note("R11", text, m.start(), " ".join(seg.split())[:60])
             out = out[:m.start()] + blank(seg) + out[j + 1:]
         return out
@@ -980,6 +991,7 @@ class UnitBuilder:
         self.contracts = {}
         self.extra = {}
         self.trusted = []
+        self.dropped = set()
         for c in unitdef.get("contracts", []):
             flt = None
             if ":" in c:
@@ -1098,6 +1110,14 @@ class UnitBuilder:
                     names = {m.name for m in members}
                     for n in fns:
                         if n not in names:
+                            # a function that was simply removed (no new function appeared in this block since the pinned tree):
+                            # go on without it -- its callers are then judged against what they call now.  Anything else
+                            # (a rename, a new function) cannot be followed by name and is undecided.
+                            pinned = set(PINNED.get(sf.rel, {}).get("%s %s" % (owner_kind, part[2]), []))
+                            if pinned and names <= pinned:
+                                self.log.append({"rule": "missing-fn", "fn": "%s::%s::%s" % (sf.rel, part[2], n), "at": sf.rel, "detail": "function no longer exists; skipped with its contract"})
+                                self.dropped.add(n)
+                                continue
                             raise ExtractError("missing fn %s in %s of %s" % (n, part[2], sf.rel))
                 pending_helpers = []
                 for m in members:
@@ -1132,7 +1152,7 @@ class UnitBuilder:
             else:
                 raise ExtractError("unknown part kind %s" % kind)
         ex.add_raw("} // verus!\nfn main() {}\n")
-        unused = [k for k, c in self.contracts.items() if not c.used]
+        unused = [k for k, c in self.contracts.items() if not c.used and k.split("::")[-1].split("#")[0] not in self.dropped]
         if unused:
             raise ExtractError("lost anchor: contracts without a function: %s" % ", ".join(unused))
         text, linemap = render_with_map(ex.chunks)
